@@ -12,15 +12,20 @@ class FakeSrc:
         self.name, self.identifier = name, identifier
 
 
-class FakeRoi(dict):
-    def __init__(self, ra, dec, n=1):
-        super().__init__({('src%d' % i): FakeSrc('src%d' % i, i) for i in range(n)})
-        self.ra, self.dec = ra, dec
+def FakeRoi(ra, dec, n=1):
+    """a *real* `xROIModel` with n point sources (identifiers 0..n-1, names src0…): the writer may use any part of the public interface of the
+    model it is handed (a stand-in with only the attributes used today would turn a harmless refactoring into an alarm)"""
+    from ixpeobssim.srcmodel.roi import xROIModel, xPointSource
+    from ixpeobssim.srcmodel.spectrum import power_law
+    from ixpeobssim.srcmodel.polarization import constant
+    srcs = [xPointSource('src%d' % i, ra, dec, power_law(1., 2.), constant(0.), constant(0.)) for i in range(n)]
+    return xROIModel(ra, dec, *srcs)
 
 
-class FakeIrf:
-    def __init__(self, du_id):
-        self.du_id = du_id
+def FakeIrf(du_id, irfname=None):
+    """the real response set of the detector unit (cached by the package)"""
+    from ixpeobssim.irf import load_irf_set, DEFAULT_IRF_NAME
+    return load_irf_set(irfname or DEFAULT_IRF_NAME, du_id)
 
 
 def obssim_kwargs(**over):
@@ -65,7 +70,7 @@ def write_event_list(el, path, gtis, tstart, tstop, nsrc=1, ra0=30., dec0=45., d
                        gti_list=xGTIList(tstart, tstop, *gtis), deadtime=deadtime, timelinedata=False, scdata=False,
                        onorbitcalib=False, charging=False, objname='synthetic')
     kw.update(over)
-    el.write_fits('verif', FakeRoi(ra0, dec0, nsrc), FakeIrf(du_id), **kw)
+    el.write_fits('verif', FakeRoi(ra0, dec0, nsrc), FakeIrf(du_id, irfname), **kw)
     return path
 
 
